@@ -6,6 +6,10 @@ Case kinds
   {"kind": "sweep", "name", "template", "opts"}            -> exception class of pickle.load per offset
   {"kind": "history", "name", "template", "optsets", "ops"} -> one result per op
 ops:  ["edit"] | ["bump"] | ["transfer", o] | ["crash", o, j] | ["cut", k] | ["reader", o, j]
+      | ["two", oa, ob, schedule] | ["reader2", o, j, schedule]
+  two: callers A (options oa) and B (ob) run transfer_model in two threads, one at a time under a
+  deterministic scheduler with checkpoints after load_model, before _compile_model, before save_model;
+  `schedule` (a string over A/B) says who advances one step at a time (then A, then B run to the end)
   j = number of completed write steps (0 before open, 1 created/truncated, 1+k = k bytes written)
   k = byte offset (negative: from the end of the current file)
 """
@@ -17,6 +21,7 @@ import pickle as real_pickle
 import pickletools
 import shutil
 import tempfile
+import threading
 
 from vlib.core import child_main
 
@@ -30,7 +35,11 @@ class PickleProxy:
     """stands in for the name `pickle` inside api.py; records the exception class of every load"""
 
     def __init__(self):
-        self.log = []
+        self._logs = {}
+
+    @property
+    def log(self):                       # one log per thread
+        return self._logs.setdefault(threading.get_ident(), [])
 
     def __getattr__(self, n):
         return getattr(real_pickle, n)
@@ -64,6 +73,35 @@ def api():
 
 class SimCrash(BaseException):
     pass
+
+
+class Sched:
+    """runs the named worker threads one at a time; a worker stops at every checkpoint()"""
+
+    def __init__(self, names):
+        self.go = {n: threading.Semaphore(0) for n in names}
+        self.arr = {n: threading.Semaphore(0) for n in names}
+        self.done = {n: False for n in names}
+
+    def checkpoint(self):
+        n = threading.current_thread().name
+        if n in self.go:
+            self.arr[n].release()
+            self.go[n].acquire()
+
+    def worker(self, n, fn):
+        self.go[n].acquire()
+        try:
+            fn()
+        finally:
+            self.done[n] = True
+            self.arr[n].release()
+
+    def step(self, n):
+        if not self.done[n]:
+            self.go[n].release()
+            if not self.arr[n].acquire(timeout=600):
+                raise RuntimeError("scheduler: thread %s did not reach a checkpoint" % n)
 
 
 class CutFile:
@@ -268,6 +306,46 @@ def do_history(case):
         r["pl"] = PROXY.log[start] if len(PROXY.log) > start else None
         return r
 
+    def two(oa, ob, schedule):
+        sched = Sched(["A", "B"])
+        orig = (a.load_model, a._compile_model, a.save_model)
+        save_order = []
+
+        def load_model(*args, **kw):
+            try:
+                return orig[0](*args, **kw)
+            finally:
+                sched.checkpoint()
+
+        def compile_model(*args, **kw):
+            sched.checkpoint()
+            return orig[1](*args, **kw)
+
+        def save_model(*args, **kw):
+            sched.checkpoint()
+            save_order.append(threading.current_thread().name)
+            return orig[2](*args, **kw)
+
+        res = {}
+        a.load_model, a._compile_model, a.save_model = load_model, compile_model, save_model
+        try:
+            ths = [threading.Thread(target=sched.worker, name=n,
+                                    args=(n, (lambda n=n, o=o: res.__setitem__(n, transfer(o)))))
+                   for n, o in (("A", oa), ("B", ob))]
+            for t in ths:
+                t.start()
+            for ch in schedule:
+                sched.step(ch)
+            for n in ("A", "B"):
+                while not sched.done[n]:
+                    sched.step(n)
+            for t in ths:
+                t.join()
+        finally:
+            a.load_model, a._compile_model, a.save_model = orig
+        return {"A": res.get("A", {"out": "Raised", "exc": "thread-died"}),
+                "B": res.get("B", {"out": "Raised", "exc": "thread-died"}), "save_order": save_order}
+
     out = []
     try:
         write_src()
@@ -321,6 +399,24 @@ def do_history(case):
                     res["reader"] = transfer(op[1])
                 out.append({"writer": w, "reader": res["reader"], "fired": c.fired,
                             "written": c.file.written if c.file else None})
+                stamp(before)
+            elif op[0] == "two":
+                out.append(two(op[1], op[2], op[3]))
+                stamp(before)
+            elif op[0] == "reader2":
+                res = {}
+
+                def rd2():
+                    res["two"] = two(op[1], op[1], op[3])
+                with Cutter(a, op[2], rd2) as c:
+                    w = transfer(op[1])
+                if "two" not in res:
+                    stamp(before)
+                    before = stat()
+                    res["two"] = two(op[1], op[1], op[3])
+                r2 = dict(res["two"])
+                r2.update({"writer": w, "fired": c.fired})
+                out.append(r2)
                 stamp(before)
             else:
                 raise ValueError("unknown op %r" % (op,))
